@@ -188,6 +188,11 @@ func (g *G) tx(v *view, check bool) script.Tx {
 	}
 	var msgs []script.Msg
 	first := g.msg(kind, v, aware, -1, 0)
+	if g.chance(2) { // a parameter update sent as an ordinary transaction by an account that names itself as the authority
+		first = g.govMsg(v)
+		first.Args[0] = g.acct(g.liveAcct(v, true))
+		kind = first.Kind
+	}
 	if kind != "authz.exec" && g.chance(g.w.execPct) {
 		grantee := signerOf(first) // self exec: needs no grant
 		if grantee < 0 || g.chance(20) {
